@@ -57,7 +57,7 @@ def gen_inputs(rng, N, cfg, small):
         TONS_CHICKEN_AND_PORK_ANNUAL=1.0, TONS_BEEF_ANNUAL=1.0, INITIAL_MILK_CATTLE=1.0, INIT_SMALL_ANIMALS=10.0, INIT_MEDIUM_ANIMALS=10.0,
         INIT_LARGE_ANIMALS_WITH_MILK_COWS=20.0)
     for i in range(1, 12):
-        c["RATIO_CROPS_YEAR%d" % i] = rng.choice([rng.uniform(0, 1), rng.uniform(0, 1), rng.uniform(1, 1.3), 0.0])
+        c["RATIO_CROPS_YEAR%d" % i] = rng.choice([rng.uniform(0, 1), rng.uniform(0, 1), rng.uniform(1, 1.3), rng.uniform(1.8, 2.6), 0.0])
         c["RATIO_GRASSES_YEAR%d" % i] = rng.uniform(0, 1.2)
     fish_pct = np.array([rng.uniform(50, 100) for _ in range(N + 24)])
     return c, fish_pct
